@@ -3,7 +3,7 @@ import re
 
 TIE = "corr:der-pkcs7"
 TIE_THEOREM = ("Relic.Props.C16.len_codec / len_minimal / tlv_roundtrip / unsorted_set_is_retag / attrs_digested_as_emitted / "
-               "attrs_digested_as_parsed / required_attrs_once (model Relic.Model.Der vs encoding/asn1 as used by lib/pkcs7)")
+               "attrs_digested_as_parsed / required_attrs_once / detach_preserves_other_fields / edit_preserves_other_fields (model Relic.Model.Der vs encoding/asn1 as used by lib/pkcs7)")
 RULE = ("codec ops: boundary and seeded lengths 0..2^24+1 through asn1.Marshal; one-element reads of valid, non-minimal, leading-zero, "
         "indefinite, over-long (k up to 127 length octets) and truncated headers through asn1.Unmarshal; AttributeList.Bytes and "
         "AttributeList.Add on seeded lists (synthesised and FullBytes-carrying values, repeated OIDs); SignerInfo.AuthenticatedAttributesBytes "
@@ -14,6 +14,13 @@ RULE = ("codec ops: boundary and seeded lengths 0..2^24+1 through asn1.Marshal; 
         "signature OIDs, extra certificates, CRL, unsorted digest-algorithm set, two signer infos in descending order, trailing element, "
         "unauthenticated attribute) and BER variants that must be refused. Each: Unmarshal -> Marshal -> Unmarshal, Detach, stamp; the model "
         "predicts ContentInfo bytes, content and the digested attribute bytes of every signer info after the round trip. "
+        "Field level (edit ops): SignedData values populating every field (versions 1/3/4/5, 1-3 digest algorithms in any order, "
+        "attached OCTET STRING / SEQUENCE content or detached, 0-7 certificates incl. non-X.509 choices, absent/empty/1-3 CRLs incl. a v1 CRL, "
+        "1-3 signer infos v1/v3 in any order with unauthenticated attributes: note, nested countersignature, nested foreign timestamp token "
+        "carrying its own CRL) through every edit entry point (Unmarshal->Marshal, Detach, AddStampToSignedData / AddStampToSignedAuthenticode "
+        "with the value as the token, SetContentInfo->Sign->TimestampAndMarshal with a foreign token); a walker independent of relic prints a "
+        "per-field digest table before and after; the predicate demands every field other than the one the edit is defined to change "
+        "byte-identical (Detach: only the content element goes); the model (parsed tree -> detachSD -> emit) predicts the emitted bytes. "
         "Non-trivial = distinct op whose model result is ok with a non-empty value, or a refused BER variant.")
 ASSUMPTIONS = ["single-byte identifier octets (tag numbers below 31) wherever the model reads; the generator never places a multi-byte tag there",
                "encoding/asn1's handling of primitive types (INTEGER, OID, BIT STRING, times) is trusted and observed only through the correspondence",
@@ -56,6 +63,9 @@ def branch(op, mres, tag):
     r = mres.split(" ")
     if r[0] != "ok":
         return k + ":" + " ".join(r[:2])
+    if k == "edit":
+        m = re.search(r"-c(\d+)-r(\w+)-s(\d+)-", f[3])
+        return "edit:%s:crls%s:si%s" % (f[2], m.group(2) if m else "?", m.group(3) if m else "?")
     if k in ("rt", "detach", "stamp", "rej", "sign"):
         kind = f[2].split("-")[0]
         extra = ""
@@ -65,6 +75,64 @@ def branch(op, mres, tag):
     if k == "enclen":
         return "enclen:%d" % (len(r[1]) // 2)
     return k + ":ok"
+
+
+_FIELDS = ("ver", "da", "cit", "cic", "certs", "crls", "si")
+_SETOF = ("da", "si")          # SET OF: asn1.Marshal emits the members in DER order; compared as multisets
+_WHAT = {"ver": "version", "da": "digestAlgorithms", "cit": "contentInfo.contentType", "cic": "contentInfo.content",
+         "certs": "certificates", "crls": "crls", "si": "signerInfos"}
+# the fields each edit is *defined* to change
+_MAY_CHANGE = {"rt": (), "detach": ("cic",), "embed-ts": (), "embed-spc": (),
+               "cat": ("ver", "da", "certs", "crls", "si")}
+
+
+def _table(s):
+    if not s or ":" not in s:
+        return None
+    return dict(p.split(":", 1) for p in s.split(";"))
+
+
+def _field_diff(edit, tb, ta, may_change):
+    """list of (field, before, after) for fields that changed although the edit must not touch them"""
+    out = []
+    for fld in _FIELDS:
+        if fld in may_change:
+            continue
+        b, a = tb.get(fld), ta.get(fld)
+        if fld in _SETOF and b is not None and a is not None:
+            b, a = ",".join(sorted(b.split(","))), ",".join(sorted(a.split(",")))
+        if b != a:
+            out.append((fld, b, a))
+    return out
+
+
+def _edit_predicate(edit, kind, il, o):
+    thm = "Relic.Props.C16.detach_preserves_other_fields" if edit == "detach" else "Relic.Props.C16.edit_preserves_other_fields"
+    if not il.startswith("ok"):
+        return (thm, "ok ...", "%s on %s: a structure relic parsed could not be edited and emitted again: %s" % (edit, kind, il))
+    tb, ta = _table(o.get("before")), _table(o.get("after"))
+    if tb is None or ta is None:
+        return (thm, "field tables", "%s on %s: input or output not readable as SignedData (before=%s after=%s)" % (edit, kind, o.get("before"), o.get("after")))
+    diff = _field_diff(edit, tb, ta, _MAY_CHANGE.get(edit, ()))
+    if diff:
+        return (thm, " ".join("%s:%s" % (f, b) for f, b, _ in diff),
+                "%s on %s changed field(s) it is not defined to change: " % (edit, kind) +
+                "; ".join("%s %s -> %s" % (_WHAT[f], b, a) for f, b, a in diff))
+    if edit == "detach":
+        if ta.get("cic") != "-":
+            return ("Relic.Props.C16.detach_removes_content", "cic:-", "Detach left content in place: %s" % ta.get("cic"))
+        if o.get("returned") != "1":
+            return ("Relic.Props.C16.detach_removes_content", "returned=1", "Detach did not return the content that was encapsulated")
+    if edit == "cat":
+        kb, ka = _table(o.get("tokbefore")), _table(o.get("tokafter"))
+        if kb is None or ka is None:
+            return (thm, "token tables", "timestamp token not found in the output of TimestampAndMarshal (tokafter=%s)" % o.get("tokafter"))
+        diff = _field_diff(edit, kb, ka, ())
+        if diff:
+            return (thm, " ".join("%s:%s" % (f, b) for f, b, _ in diff),
+                    "TimestampAndMarshal changed field(s) of the embedded token: " +
+                    "; ".join("%s %s -> %s" % (_WHAT[f], b, a) for f, b, a in diff))
+    return None
 
 
 def predicate(op, il, mres, tag):
@@ -103,6 +171,8 @@ def predicate(op, il, mres, tag):
         if ("-a1-" in kind or "-a2-" in kind) and o.get("ct") != "1/1":
             return ("Relic.Props.C16.required_attrs_once", "ct=1/1", "attributes requested but required attributes missing")
         return None
+    if k == "edit":
+        return _edit_predicate(f[2], f[3], il, o)
     if k == "detach":
         for key in ("returned", "certs", "si", "aab"):
             if o.get(key) != "1":
